@@ -6,7 +6,7 @@ for d in sorted(glob.glob('/verif/seeded/*/')):
     name = os.path.basename(d.rstrip('/'))
     m = json.load(open(d + 'meta.json'))
     note = m.get('confirmed_by_me') or ''
-    missed = 'silent at first' in note or 'did not terminate' in note
+    missed = 'silent at first' in note or 'did not terminate' in note or 'extended, then caught' in note
     needs = (m.get('what_it_needs_to_manifest') or '').replace('\n', ' ').replace('|', '/')
     needs = needs[:140] + ('…' if len(needs) > 140 else '')
     rows.append((name, m['property'], ', '.join(m.get('detected_by_checks') or []), 'extended, then caught' if missed else 'caught as built', needs))
